@@ -412,6 +412,17 @@ func (env *Env) local(name string) (Value, bool) {
 		}
 	}
 	if len(allocs) == 0 {
+		// a variable captured by a closure: the free variable is a pointer to the enclosing function's cell
+		for _, fv := range fr.fn.FreeVars {
+			if fv.Name() == name {
+				if pv, ok := fr.freeVars[fv]; ok {
+					if _, isPtr := types.Unalias(fv.Type()).Underlying().(*types.Pointer); isPtr && pv.Ptr != nil {
+						return env.st.load(pv.Ptr), true
+					}
+					return pv, true
+				}
+			}
+		}
 		return Value{}, false
 	}
 	sort.Slice(allocs, func(i, j int) bool { return allocs[i].Pos() < allocs[j].Pos() })
